@@ -110,3 +110,17 @@ def render_methods(prog: Program) -> Iterator[FunctionInfo]:
             m = ci.methods.get(name)
             if m is not None:
                 yield m
+
+
+def callee_name(fn: ast.AST, c: ast.Call) -> str | None:
+    """The attribute/function name a call finally refers to, looking through local aliases (`pb = self.env.parser.parse_block; pb(…)`),
+    so that a rule keyed on *what* is called does not depend on what the local alias happens to be named."""
+    f = c.func
+    if isinstance(f, ast.Attribute):
+        return f.attr
+    if isinstance(f, ast.Name):
+        srcs = [a.value for a in ast.walk(fn) if isinstance(a, ast.Assign) and any(isinstance(t, ast.Name) and t.id == f.id for t in a.targets)]
+        if srcs and all(isinstance(v, ast.Attribute) for v in srcs) and len({v.attr for v in srcs}) == 1:  # type: ignore[union-attr]
+            return srcs[0].attr  # type: ignore[union-attr]
+        return f.id
+    return None
